@@ -1066,3 +1066,19 @@ V("twin: is_tangent through np.linalg.solve with a trailing axis on the right-ha
   "        h = plane.array[..., None]\n        pole = np.linalg.solve(self.array, h)\n        return np.isclose(np.sum(h * pole, axis=(-2, -1)), 0, atol=EQ_TOL_ABS)", "silent")
 V("twin: np.vdot of two coordinate vectors in a function that takes single objects only", "C04", TRANS, "    x = Point(*x)\n\n    return translation(x) * p * translation(-x)",
   "    x = Point(*x)\n    _offset = 2 * np.vdot(axis.array[:-1], x.array[:-1])  # (a scalar of two vectors: nothing to flatten)\n\n    return translation(x) * p * translation(-x)", "silent")
+
+
+# ------------------------------------------------------------------------------------------------ equality of polygons (E19.eq, C17)
+SHAPES = "geometer/shapes.py"
+_EQ_REV = """            if np.all(
+                is_multiple(self.array, np.roll(reversed_array, i, axis=-2), axis=-1, rtol=EQ_TOL_REL, atol=EQ_TOL_ABS)
+            ):
+                return True
+"""
+V("polygon equality without the reversed vertex cycle", "C17", SHAPES, _EQ_REV, "", "E19.eq", "PolytopeTensor.__eq__", quick=True)
+V("polygon equality rolls the coordinates instead of the vertices", "C17", SHAPES, "is_multiple(self.array, np.roll(other.array, i, axis=-2), axis=-1, rtol=EQ_TOL_REL, atol=EQ_TOL_ABS)",
+  "is_multiple(self.array, np.roll(other.array, i, axis=-1), axis=-1, rtol=EQ_TOL_REL, atol=EQ_TOL_ABS)", "E19.eq", "PolytopeTensor.__eq__")
+V("polygon equality accepts any vertex of the other polygon in each position", "C17", SHAPES, "            if np.all(\n                is_multiple(self.array, np.roll(other.array, i, axis=-2)",
+  "            if np.any(\n                is_multiple(self.array, np.roll(other.array, i, axis=-2)", "E19.eq", "PolytopeTensor.__eq__")
+V("twin: polygon equality rolls the receiver instead of the argument", "C17", SHAPES, "is_multiple(self.array, np.roll(other.array, i, axis=-2), axis=-1, rtol=EQ_TOL_REL, atol=EQ_TOL_ABS)",
+  "is_multiple(np.roll(self.array, i, axis=-2), other.array, axis=-1, rtol=EQ_TOL_REL, atol=EQ_TOL_ABS)", "silent")
